@@ -10,7 +10,8 @@
      denote pal256 gray4 caps cmd   the short meaning of the command (Encoder/Denote.v)
      vt_complete bytes              the parser is back in its initial state after the bytes
      cmd_ok cmd                     the domain of the property: machine-integer ranges, byte-valued colour
-                                    channels, titles without control characters, Char other than ESC/DEL/C1
+                                    channels, titles without control characters, Char of any scalar value (controls:
+                                    Denote.v decisions D8, D10)
      pal256 / gray4                 the palette index / grey level chosen for a colour under the reduced
                                     depths: any functions (which entry is chosen is property C20) *)
 From Coq Require Import List NArith ZArith Bool.
@@ -88,7 +89,13 @@ Theorem C05_stream_after_complete_prefix :
       vt_ops (pre ++ bs) = vt_ops pre ++ flat_map (denote pal256 gray4 cp) cs.
 Proof. exact c05_stream_thm. Qed.
 
-(*    ONE ENCODER OBJECT.  encode_stream_st threads the only mutable state a TTYEncoder has (the
+(*    ONE ENCODER OBJECT.  NOTE: this theorem is about the MODEL and close to definitional -- the model
+      of TTYEncoder carries no memo because the code has none (`chunks_clear s = []` mirrors
+      `self.chunks.clear()`); what it contributes is the explicit statement that the encoder's output is
+      a function of (caps, command) alone, from ANY scratch-buffer content, which the correspondence run
+      (repeat streams through one real encoder) then tests against the code.  A memo added to the code
+      is caught by that run, not by this theorem.
+      encode_stream_st threads the only mutable state a TTYEncoder has (the
       scratch chunk buffer; no memo of what was sent before) through a list of commands.  From ANY
       state of that buffer the output is the concatenation of the self-contained per-command
       encodings; after any complete prefix it is read back as the commands' operations, and it
@@ -130,13 +137,14 @@ Theorem C05_nopanic_with_reduction :
   forall (cp : caps) (c : cmd), is_ok (encode_c20 cp c) = true.
 Proof. exact encode_c20_total. Qed.
 
-(* 5b. KNOWN FINDING (class C05-char-introducer, excluded from cmd_ok): `Char(c)` for the seven
-       characters that open a control sequence or string (ESC, and C1 DCS SOS CSI OSC PM APC) is
-       NOT self-contained: the parser is left inside an escape sequence ... *)
-Theorem C05_char_introducer_refuted :
-  forall (pal256 gray4 : rgba -> N) (cp : caps) (c : N), char_introducer c = true ->
-  exists bs, encode pal256 gray4 cp (Char c) = Ok bs /\ vt_complete bs = false.
-Proof. exact char_introducer_refuted. Qed.
+(* 5b. FIXED DEFECT (crate commit 73d8d1c): before the fix `Char(c)` for the seven characters that
+       open a control sequence or string (ESC, and C1 DCS SOS CSI OSC PM APC) wrote the bare
+       character: NOT self-contained, the parser was left inside an escape sequence.  (Since the
+       fix they are written as U+FFFD and are inside C05_meaning: decision D10.) *)
+Theorem C05_char_introducer_refuted_before_fix :
+  forall c : N, char_introducer c = true ->
+  exists bs, encode_orig (Char c) = Ok bs /\ vt_complete bs = false.
+Proof. exact char_introducer_refuted_before_fix. Qed.
 
 (* 6. the DEC mode numbers in the source (regenerated every run) are xterm's *)
 Theorem C05_decmodes : forall m, decmode_code m = decmode_xterm m.
@@ -168,15 +176,33 @@ Example C05_meaning_nonvacuous :
                   (Some (CRgb 1 2 3)) (Some CDefault) (Some CDefault) false)].
 Proof. vm_compute. repeat split; reflexivity. Qed.
 
-(*     ... and swallows what follows: Char(ESC) Char('c') is a full reset, Char(U+009B) Char('2')
-      Char('J') erases the screen; every other character (C0/C1 controls, DEL) is in the domain *)
+(*     ... and swallowed what follows: Char(ESC) Char('c') was a full reset, Char(U+009B) Char('2')
+      Char('J') erased the screen; now every scalar value is in the domain *)
 Example C05_char_introducer_witnesses :
   vt_ops (utf8_list [27; 99]) = [ORis] /\
   vt_ops (utf8_list [155; 50; 74]) = [OEd 2] /\
-  cmd_ok (Char 27) = false /\ cmd_ok (Char 155) = false /\
+  encode (fun _ => 16) (fun _ => 0) (mkCaps TrueColor false false) (Char 27) = Ok [239; 191; 189] /\
+  denote (fun _ => 16) (fun _ => 0) (mkCaps TrueColor false false) (Char 155) = [OPrint 65533] /\
+  cmd_ok (Char 27) = true /\ cmd_ok (Char 155) = true /\
   cmd_ok (Char 127) = true /\ cmd_ok (Char 133) = true /\ cmd_ok (Char 7) = true /\ cmd_ok (Char 156) = true /\
   cmd_ok (Termcap [[]]) = true /\ cmd_ok (Termcap []) = true.
 Proof. vm_compute. repeat split; reflexivity. Qed.
+
+(* non-vacuity of the reduced-depth and self-containedness theorems: their hypotheses are met by
+   faces with both colours, by modifications naming all three colours, under both reduced depths *)
+Example C05_reduced_selfcontained_nonvacuous :
+  let f := mkFace (Some (mkRgba 1 2 3 255)) (Some (mkRgba 200 100 0 7)) 27 in
+  let m := mkFM true (Some (mkRgba 1 2 3 255)) (Some (mkRgba 9 9 9 255)) (Some UDashed) (Some (mkRgba 4 5 6 255))
+                (Some false) None (Some true) None in
+  cmd_ok (Face f) = true /\ cmd_ok (FaceModify m) = true /\
+  cp_depth (mkCaps EightBit false true) <> TrueColor /\ cp_depth (mkCaps Gray true false) <> TrueColor /\
+  is_raw (Face f) = false /\ is_raw (Title [104; 105]) = false /\ cmd_ok (Title [104; 105]) = true /\
+  reduced_colour (fun _ => 99) (fun _ => 2) EightBit (f_fg f) = CIdx 99 /\
+  reduced_colour (fun _ => 99) (fun _ => 2) Gray (f_bg f) = CIdx 7 /\
+  t_ulc (fm_trans (fun _ => 99) (fun _ => 2) Gray m) = Some CDefault /\
+  t_ulc (fm_trans (fun _ => 99) (fun _ => 2) EightBit m) = Some (CIdx 99) /\
+  vt_complete [27; 93; 48; 59; 104; 105; 27; 92] = true.
+Proof. vm_compute. repeat split; try reflexivity; discriminate. Qed.
 
 (* a repeated keyboard level after a reset must be sent again: the terminal forgot it *)
 Example C05_one_encoder_nonvacuous :
@@ -293,5 +319,35 @@ Theorem C05_C01_history_final :
                      (rrun o (rnew h w false) all_ops))
                (show o (fst (size_after h w ops)) (snd (size_after h w ops)) s) = true.
 Proof. exact c05_c01_history_final. Qed.
+
+(* non-vacuity: a concrete terminal (1 x 5), two faces, a wide character (U+4E16), a long blank run:
+   the renderer's commands are valid, contain CFace / CCursorTo / CChar / CEraseChars, the reference
+   terminal accepts them, and the screen reached through the BYTES displays show(S) *)
+Definition ex_o : oracle :=
+  mkoracle (fun ch => if N.eqb ch 19990%N then 2 else 1) (fun _ => (1, 1)) (fun _ _ => 0%N)
+           (fun f => f) (fun f => f) (fun _ => true).
+Definition ex_fval (id : N) : Encode.face :=
+  if N.eqb id 1%N then mkFace (Some (mkRgba 200 30 30 255)) None 8%N else mkFace None None 0%N.
+Definition ex_fid (r : rendition) : N :=
+  if Term.rendition_eq_dec r (face_rendition (ex_fval 1%N)) then 1%N else 0%N.
+Definition ex_surface1 : grid cell :=
+  [[mkcell 1%N (KChar 97%N); mkcell 0%N (KChar 19990%N); cell_default; mkcell 1%N (KChar 98%N); cell_default]].
+Definition ex_surface2 : grid cell :=
+  [[cell_default; cell_default; cell_default; cell_default; cell_default]].
+Definition ex_history : list Frame.op := [Draw ex_surface1; Frame; Draw ex_surface2; Frame].
+Definition ex_caps : caps := mkCaps TrueColor false false.
+
+Example C05_C01_nonvacuous :
+  let impl := rrun ex_o (rnew 1 5 false) ex_history in
+  forallb (forallb (cmd_valid ex_fval ex_fid)) impl = true /\
+  existsb (fun c => match c with CEraseChars _ => true | _ => false end) (concat impl) = true /\
+  existsb (fun c => match c with CChar 19990%N => true | _ => false end) (concat impl) = true /\
+  err (play (exec_list ex_o) (blank_screen 1 5) ex_history impl) = false /\
+  same_display (play (interp_list ex_o ex_fval ex_fid (fun _ => 16%N) (fun _ => 0%N) ex_caps) (blank_screen 1 5) ex_history impl)
+               (show ex_o 1 5 ex_surface2) = true /\
+  same_display (interp_list ex_o ex_fval ex_fid (fun _ => 16%N) (fun _ => 0%N) ex_caps (blank_screen 1 5)
+                            (nth 1 impl []))
+               (show ex_o 1 5 ex_surface1) = true.
+Proof. vm_compute. repeat split; reflexivity. Qed.
 
 End C05_C01.
